@@ -88,7 +88,7 @@ pub fn lossless_oracle(text: &str) -> Result<bool, (String, String)> {
     }
     // 2. parser
     let path = Path::new("main.gom");
-    let r1 = match sandbox::on_stack(sandbox::CLI_STACK, || parser::parse(path, text)) {
+    let r1 = match sandbox::cli(|| parser::parse(path, text)) {
         Ok(r) => r,
         Err(p) => return Err((format!("C12|panic|parse|{}", p.signature()), p.message)),
     };
@@ -144,7 +144,7 @@ pub fn lossless_oracle(text: &str) -> Result<bool, (String, String)> {
         }
     }
     // 3. parsing twice gives the same tree and diagnostics
-    let r2 = match sandbox::on_stack(sandbox::CLI_STACK, || parser::parse(path, text)) {
+    let r2 = match sandbox::cli(|| parser::parse(path, text)) {
         Ok(r) => r,
         Err(p) => return Err((format!("C12|panic|parse2|{}", p.signature()), p.message)),
     };
